@@ -50,6 +50,7 @@ type genCfg struct {
 	repeatAcct             bool // allow the same account several times in a source
 	unspecified            bool // allow the corners the properties leave open
 	portionVars            bool
+	varBounds              bool // overdraft bounds may be arbitrary monetary expressions (front-end corpora)
 }
 
 type gen struct {
@@ -218,7 +219,7 @@ func (g *gen) src(asset string, d int, ctx *srcCtx, sendAll bool, capped bool) J
 				break
 			}
 			b := g.expr("monetary", asset, 1)
-			if !c.unspecified {
+			if !c.unspecified && !c.varBounds {
 				// keep the bound non-negative: a literal non-negative number
 				b = eMon(eAsset(asset), eNum(absInt(g.num())))
 			}
